@@ -465,6 +465,75 @@ func c09DrainWindow(recover bool) *Scenario {
 	return sc
 }
 
+// c09OverlappingDrains: two commands that drain the same healthy targets overlap (the first with the shorter drain
+// timeout, a request in flight on every target); once both have returned and the service is resumed, every target has
+// passed all its probes and no command is running: the rotation must use all of them before the next probe tick.
+func c09OverlappingDrains(first, second string) *Scenario {
+	sc := &Scenario{Name: fmt.Sprintf("C09 overlapping drains %s then %s, then resume", first, second), Horizon: 60 * time.Second}
+	const host = "a.example.com"
+	var late []*ReqObs
+	sc.Run = func(w *World) {
+		late = nil
+		w.AddTarget("ta:80")
+		w.AddTarget("tb:80")
+		t0 := w.Now()
+		if r := w.Deploy(deployArgs("s1", []string{"ta:80", "tb:80"}, []string{host}, nil)); r.Err != nil {
+			w.Note("setup: %v", r.Err)
+			return
+		}
+		time.Sleep(t0 + vI + 100*time.Millisecond - w.Now())
+		for i := 0; i < 2; i++ {
+			i := i
+			vsched.GoTagged("client", func() { w.Do(ReqSpec{ID: fmt.Sprintf("slow%d", i), Host: host, Plan: "hang"}) })
+		}
+		time.Sleep(100 * time.Millisecond)
+		run := func(cmd string, drain time.Duration) {
+			if cmd == "pause" {
+				w.Pause("s1", drain, vMaxPause)
+			} else {
+				w.Stop("s1", drain, "m")
+			}
+		}
+		var wg vsync.WaitGroup
+		wg.Add(2)
+		w.S.SetWindow(true)
+		vsched.GoTagged("cmd", func() { defer wg.Done(); run(first, 300*time.Millisecond) })
+		time.Sleep(100 * time.Millisecond)
+		vsched.GoTagged("cmd", func() { defer wg.Done(); run(second, vD) })
+		wg.Wait()
+		w.Resume("s1")
+		w.S.SetWindow(false)
+		if w.Now() >= t0+2*vI {
+			return // (only with stalls) the next probe tick has passed
+		}
+		for i := 0; i < 4; i++ {
+			late = append(late, w.Do(ReqSpec{ID: fmt.Sprintf("late%d", i), Host: host}))
+		}
+	}
+	sc.Check = func(w *World) []Violation {
+		var vs []Violation
+		for _, n := range w.Notes {
+			vs = append(vs, Violation{"C09", "setup", n})
+		}
+		if len(vs) > 0 || len(late) != 4 || w.HadStall() {
+			return vs
+		}
+		counts := map[string]int{}
+		for _, r := range late {
+			if r.Status != 200 {
+				counts[fmt.Sprintf("status %d via %s", r.Status, lastSites(r.Sites, 2))]++
+			} else {
+				counts[r.ServedBy()]++
+			}
+		}
+		if counts["ta:80"] != 2 || counts["tb:80"] != 2 {
+			vs = append(vs, Violation{"C09", "healthy-targets-not-all-used after-overlapping-drains", fmt.Sprintf("both targets passed every probe and no command is running; 4 requests after the resume were answered %v", counts)})
+		}
+		return vs
+	}
+	return sc
+}
+
 func checkC09(t *testing.T, job *Job, res *Result) {
 	tier := job.Tier
 	if job.Replay != nil {
@@ -476,6 +545,11 @@ func checkC09(t *testing.T, job *Job, res *Result) {
 	}
 	for _, rec := range []bool{false, true} {
 		sc := c09DrainWindow(rec)
+		sc.Bounds = &Bounds{D: 1, S: 0}
+		scs = append(scs, sc)
+	}
+	for _, x := range [][2]string{{"pause", "stop"}, {"pause", "pause"}, {"stop", "stop"}, {"stop", "pause"}} {
+		sc := c09OverlappingDrains(x[0], x[1])
 		sc.Bounds = &Bounds{D: 1, S: 0}
 		scs = append(scs, sc)
 	}
